@@ -23,14 +23,19 @@ RULE = ('case = 2-3 concurrent callers (get / get_or_compute / forced get_or_com
         'complete result of one computation for the key (or the initial entry); no call raises; at quiescence the file parses to a complete entry for the key; '
         'an unforced get_or_compute that starts when a complete entry is stored and that no write overlaps does not invoke its computer; get computes nothing. '
         'non-trivial = schedule with >=1 context switch between the first and last step of some call; distinct = hash(config, choice sequence)')
-REQUIRED = ['process_level_schedules', 'schedules', 'exhaustive_pairs', 'context_switch_schedules', 'reads_overlapping_writes', 'truncate_window_schedules', 'mid_pickle_write_interleavings', 'lock_blocked_events',
+REQUIRED = ['process_level_schedules', 'schedules', 'exhaustive_pairs', 'context_switch_schedules', 'reads_overlapping_writes', 'truncate_window_schedules', 'mid_pickle_write_interleavings', 'failing_forced_computations', 'lock_blocked_events',
             'three_caller_schedules', 'all_lines_schedules']
 ASSUMPTIONS = ['gate granularity = statements of cache.py touching shared state + lock and computer events; interleavings inside one write() call are not split',
                'get may answer NO_VALUE while nothing is stored or a write overlaps it; callers that both started before either returned may both compute']
 BUDGET = {'quick': 75, 'thorough': 1500}
 EXHAUSTIVE = {'quick': True, 'thorough': True}
 OPS = ['get', 'goc', 'force']
+OPS_R = ['get', 'goc', 'force', 'get', 'goc', 'force', 'fraise']      # random schedules: now and then a forced caller whose computation fails
 KEY = 'the-key'
+
+
+class ComputeBoom(Exception):
+    """the computation of a (forced) caller fails: nothing is stored by it and nobody else is affected"""
 
 
 class Uniq:
@@ -112,6 +117,9 @@ def run_schedule(cfg, chooser, gate_all=False):
         def mk(i, op):
             def computer():
                 calls[i]['computed'] += 1
+                if op == 'fraise':
+                    ctl.note('computed', -1)
+                    raise ComputeBoom(f'computer of caller {i} fails')
                 tok = uniq.next(i)
                 v = make_value(kind, tok)
                 calls[i]['computed_value'] = tcanon(v)
@@ -125,7 +133,7 @@ def run_schedule(cfg, chooser, gate_all=False):
                     if op == 'get':
                         r = caches[i].get(KEY)
                     else:
-                        r = caches[i].get_or_compute(KEY, computer, force=(op == 'force'))
+                        r = caches[i].get_or_compute(KEY, computer, force=(op in ('force', 'fraise')))
                     calls[i]['result'] = 'NO_VALUE' if r is tc.NO_VALUE else tcanon(r)
                 except sched.Inconclusive:
                     raise
@@ -201,6 +209,12 @@ def judge(hist, res: CaseResult):
     for call in hist['calls']:
         i = call['caller']
         here = f'caller {i} ({call["op"]}) in schedule {hist["choices"]} of {cfg}'
+        if call['op'] == 'fraise':
+            res.count('failing_forced_computations')
+            if not call['exc'] or 'ComputeBoom' not in call['exc']:
+                res.violate(f'{here}: the computer raised but the call gave {call["exc"] or call["result"]!r}', witness=wit, facts={'tag': 'failure_swallowed'})
+                return
+            continue
         if call['exc']:
             res.violate(f'{here}: call failed although only another caller\'s activity interfered: {call["exc"]}', witness=wit, facts={'tag': 'call_raised'})
             return
@@ -244,7 +258,7 @@ def judge(hist, res: CaseResult):
                             facts={'tag': 'needless_recompute'})
                 return
     fin = hist.get('final')
-    any_store = cfg['present'] or any(c['computed'] for c in hist['calls'])
+    any_store = cfg['present'] or any(c['computed'] for c in hist['calls'] if c['op'] != 'fraise')
     if isinstance(fin, str) and fin.startswith('UNREADABLE'):
         res.violate(f'at quiescence the stored entry is unreadable ({fin}) after schedule {hist["choices"]} of {cfg}', witness=wit, facts={'tag': 'final_unreadable'})
         return
@@ -348,6 +362,10 @@ def cases(tier, seed):
             for present in (True, False):
                 for same in (True, False):
                     yield {'mode': 'dfs', 'cfg': {'ops': [a, b], 'present': present, 'same_object': same, 'cache': cache}, 'cap': 20000 if tier == 'thorough' else 6000}
+    # a forced caller whose computation fails, next to readers / other writers (the stored entry must survive)
+    for other in ('get', 'goc', 'force'):
+        for present in (True, False):
+            yield {'mode': 'dfs', 'cfg': {'ops': ['fraise', other], 'present': present, 'same_object': False, 'cache': 'json'}, 'cap': 6000}
     if tier == 'quick':
         # the pickle-based caches: readers overlapping a forced writer, all schedules
         for cache in ('pd', 'npy'):
@@ -360,13 +378,13 @@ def cases(tier, seed):
         yield {'mode': rng.choice(['random', 'pct']), 'cfg': cfg, 'n': 40, 'seed': rng.randrange(1 << 30), 'gate_all': i % 4 == 0}
     n3 = 60 if tier == 'quick' else 1500
     for i in range(n3):
-        ops = [rng.choice(OPS) for _ in range(3)]
+        ops = [rng.choice(OPS_R) for _ in range(3)]
         cfg = {'ops': ops, 'present': rng.random() < 0.5, 'same_object': rng.random() < 0.5, 'cache': rng.choice(caches3)}
         yield {'mode': rng.choice(['random', 'pct']), 'cfg': cfg, 'n': 25, 'seed': rng.randrange(1 << 30), 'gate_all': i % 3 == 0}
     # process-level variant: callers are OS processes
     npr = 24 if tier == 'quick' else 600
     for i in range(npr):
-        ops = [rng.choice(OPS) for _ in range(rng.choice([2, 2, 3]))]
+        ops = [rng.choice(OPS_R) for _ in range(rng.choice([2, 2, 3]))]
         cfg = {'ops': ops, 'present': rng.random() < 0.5, 'same_object': False, 'cache': rng.choice(caches), 'processes': True}
         yield {'mode': rng.choice(['random', 'pct']), 'cfg': cfg, 'n': 12, 'seed': rng.randrange(1 << 30), 'gate_all': False}
     if tier == 'thorough':
@@ -374,6 +392,6 @@ def cases(tier, seed):
             for present in (True, False):
                 yield {'mode': 'dfs', 'cfg': {'ops': [a, b], 'present': present, 'same_object': False, 'cache': 'json', 'processes': True}, 'cap': 20000}
     for i in range(n3 // 2):
-        ops = [rng.choice(OPS) for _ in range(2)]
+        ops = [rng.choice(OPS_R) for _ in range(2)]
         cfg = {'ops': ops, 'present': rng.random() < 0.5, 'same_object': rng.random() < 0.5, 'cache': rng.choice(caches)}
         yield {'mode': 'random', 'cfg': cfg, 'n': 25, 'seed': rng.randrange(1 << 30), 'gate_all': True}
